@@ -17,7 +17,7 @@ import (
 // returns a value of the advertised type; index-taking operations obey the
 // negative-index / out-of-range law.
 
-var verifMemberKinds = []string{"int", "float", "bool", "str", "range", "list", "anyobj", "object", "object-with-fields-named-like-builtin-members", "list-of-ranges", "list-of-options", "anyobj-with-a-range", "option"}
+var verifMemberKinds = []string{"int", "float", "bool", "str", "range", "list", "anyobj", "object", "object-with-fields-named-like-builtin-members", "list-of-ranges", "list-of-options", "anyobj-with-a-range", "float-concrete", "list-of-floats", "str-unicode", "option"}
 
 type verifSubject struct {
 	typ ast.Type
@@ -63,6 +63,17 @@ func verifSubjectOf(kind string) verifSubject {
 		return verifSubject{ast.NewObjectType([]ast.ObjectTypeField{ast.NewObjectTypeField(pAst.NewSpannedIdent("a", sp), ast.NewIntType(sp), sp)}, sp),
 			*vvalue.NewValueObject(map[string]*vvalue.Value{"a": vvalue.NewValueInt(i)}),
 			*ivalue.NewValueObject(map[string]*ivalue.Value{"a": ivalue.NewValueInt(i)})}
+	case "float-concrete":
+		// the text of a float is not interpreted by the solver: concrete values for the members that render it
+		f := []float64{2.0, 2.5, -0.0, 1e21, 0.000001, 123456789.0}[herrors.VerifNdIntRange("subj_fc", 0, 5)]
+		return verifSubject{ast.NewFloatType(sp), *vvalue.NewValueFloat(f), *ivalue.NewValueFloat(f)}
+	case "list-of-floats":
+		return verifSubject{ast.NewListType(ast.NewFloatType(sp), sp),
+			*vvalue.NewValueList([]*vvalue.Value{vvalue.NewValueFloat(2.0), vvalue.NewValueFloat(0.5)}),
+			*ivalue.NewValueList([]*ivalue.Value{ivalue.NewValueFloat(2.0), ivalue.NewValueFloat(0.5)})}
+	case "str-unicode":
+		u := []string{"h\u00e9llo", "e\u0301", "\u4e2d\u6587", "a\U0001F600b"}[herrors.VerifNdIntRange("subj_su", 0, 3)]
+		return verifSubject{ast.NewStringType(sp), *vvalue.NewValueString(u), *ivalue.NewValueString(u)}
 	case "list-of-ranges":
 		j := herrors.VerifNdInt64("subj_j")
 		return verifSubject{ast.NewListType(ast.NewRangeType(sp), sp),
@@ -217,6 +228,8 @@ func VerifHarness_Members() {
 	}
 	var cctx context.Context = newVerifCtx()
 	out := ""
+	// outcome of the call in each library, for the comparison at the end: "" = not called
+	vmOutcome, trOutcome := "", ""
 	if vmHas && (*vmMember).Kind() == vvalue.BuiltinFunctionValueKind {
 		var res *vvalue.Value
 		var intr *vvalue.VmInterrupt
@@ -229,7 +242,19 @@ func VerifHarness_Members() {
 		}
 		herrors.VerifAssert("vm-member-no-panic", !p)
 		herrors.VerifUntag("panic")
+		if !p && intr != nil {
+			vmOutcome = "interrupt"
+		}
 		if !p && intr == nil {
+			vmOutcome = "value:"
+			if res != nil && *res != nil {
+				if d, di := (*res).Display(); di == nil {
+					vmOutcome += d
+				}
+			}
+			if d, di := subj.vm.Display(); di == nil {
+				vmOutcome += " subject:" + d
+			}
 			herrors.VerifReached("vm-called")
 			if fn.ReturnType.Kind() == ast.NullTypeKind {
 				herrors.VerifAssert("vm-member-returns-advertised-type", res == nil || (*res).Kind() == vvalue.NullValueKind)
@@ -253,7 +278,19 @@ func VerifHarness_Members() {
 		}
 		herrors.VerifAssert("tree-member-no-panic", !p)
 		herrors.VerifUntag("panic")
+		if !p && intr != nil {
+			trOutcome = "interrupt"
+		}
 		if !p && intr == nil {
+			trOutcome = "value:"
+			if res != nil && *res != nil {
+				if d, di := (*res).Display(); di == nil {
+					trOutcome += d
+				}
+			}
+			if d, di := subj.tr.Display(); di == nil {
+				trOutcome += " subject:" + d
+			}
 			herrors.VerifReached("tree-called")
 			if fn.ReturnType.Kind() == ast.NullTypeKind {
 				herrors.VerifAssert("tree-member-returns-advertised-type", res == nil || (*res).Kind() == ivalue.NullValueKind)
@@ -264,6 +301,13 @@ func VerifHarness_Members() {
 				}
 			}
 		}
+	}
+	// both value libraries implement one language: the same member called with the same arguments gives the same
+	// result (rendered text), fails in both or in neither, and leaves the subject in the same state
+	if vmOutcome != "" && trOutcome != "" && herrors.VerifParam("agree", 0) == 1 {
+		herrors.VerifTag("outcomes", herrors.VerifNorm(vmOutcome)+" vs "+herrors.VerifNorm(trOutcome))
+		herrors.VerifAssert("both-libraries-agree-on-result-and-subject", vmOutcome == trOutcome)
+		herrors.VerifUntag("outcomes")
 	}
 }
 
